@@ -29,13 +29,15 @@ type PairScn struct {
 }
 
 type pairResult struct {
-	Evs       []Ev
-	Converged bool
-	Reason    string
-	Busy      bool // dial attempts still being started when the watchdog fired
-	Timeline  []string
-	Echo      [2]bool
-	Doubles   int
+	Evs         []Ev
+	Converged   bool
+	Reason      string
+	Busy        bool // dial attempts still being started when the watchdog fired
+	Timeline    []string
+	Echo        [2]bool
+	Doubles     int
+	Accepts     int // TCP connections between the two hubs during the whole scenario
+	Undisturbed bool
 }
 
 func genPair(r *vc.Rand) *PairScn {
@@ -107,6 +109,7 @@ func runPair(sc *PairScn) (res pairResult) {
 		go func() {
 			last := ""
 			var lastConn api.ShipConnectionInterface
+			var lastHub = nd.H()
 			for {
 				select {
 				case <-stopWatch:
@@ -115,7 +118,12 @@ func runPair(sc *PairScn) (res pairResult) {
 				}
 				cur := "none"
 				var curConn api.ShipConnectionInterface
-				if e, ok := nd.H().VerifRegistry()[peer.SKI]; ok {
+				curHub := nd.H()
+				if curHub != lastHub {
+					// the node was restarted: a new hub with a new, empty registry
+					lastHub, lastConn = curHub, nil
+				}
+				if e, ok := curHub.VerifRegistry()[peer.SKI]; ok {
 					cur = fmt.Sprintf("%p state=%d closed=%v", e.Connection, e.State, e.Closed)
 					curConn = e.Connection
 				}
@@ -269,6 +277,8 @@ func runPair(sc *PairScn) (res pairResult) {
 				return false
 			})
 		}
+		res.Accepts = int(accepts())
+		res.Undisturbed = len(sc.Disturbs) == 0
 		// let delayed notifications (500 ms) arrive
 		time.Sleep(900 * time.Millisecond)
 		nw.L.Add("H", "settled", "", "", 0)
@@ -360,6 +370,31 @@ func monitorNotifications(res pairResult, class func(string)) []hubFinding {
 			}
 		}
 		class("seq:" + strings.Join(seq, ""))
+		// order clause, decidable when exactly one connection ever existed for the SKI: a successful
+		// attempt maps to queued(1) / received-request(3) / initiated(2), in-progress(4), trusted(5),
+		// in-progress(4), pin(6), in-progress(4), completed(7); intermediate notifications may be
+		// skipped, so the delivered sequence (stutters collapsed) has to be a subsequence of it
+		if res.Undisturbed && res.Accepts == 1 {
+			master := []string{"1", "3", "2", "4", "5", "4", "6", "4", "7"}
+			var col []string
+			for _, x := range seq {
+				if len(col) == 0 || col[len(col)-1] != x {
+					col = append(col, x)
+				}
+			}
+			k := 0
+			for _, x := range col {
+				for k < len(master) && master[k] != x {
+					k++
+				}
+				if k == len(master) {
+					out = append(out, hubFinding{"C18", "older-state-after-newer", fmt.Sprintf("%s: delivered pairing states %v are not an order-preserving selection of %v (single connection, successful attempt)", who, col, master)})
+					break
+				}
+				k++
+			}
+			class("order-clause-checked")
+		}
 		if final >= 0 && last != final {
 			out = append(out, hubFinding{"C18", fmt.Sprintf("last-notification-stale:%d-vs-%d", last, final), fmt.Sprintf("%s: last ServicePairingDetailUpdate state %d, PairingDetailForSki says %d (sequence %v)", who, last, final, seq)})
 		}
